@@ -339,7 +339,30 @@ func (d *drv) gobStream() error {
 		ts[4] = tok{K: "int", I: n}
 		cs = append(cs, gcase{op: "mzfrombytes", why: "count", toks: ts})
 	}
+	// keys with empty / blank / very long parts, empty datatype, empty string value: always
+	longPart := strings.Repeat("k", 70000)
+	for _, parts := range [][]any{{""}, {"urn:a", ""}, {"", "urn:a"}, {"", 3}, {" "}, {"\t\n"}, {"urn:a", " ", 0}, {longPart}, {"urn:a", longPart, 2}, {}, {"urn:a", "", ""}} {
+		for _, val := range [][]tok{{{K: "uint", U: 2}, {K: "str", S: "v"}}, {{K: "uint", U: 2}, {K: "str", S: ""}}, {{K: "uint", U: 0}, {K: "int", I: 7}}} {
+			for _, dt := range []string{"", "http://www.w3.org/2001/XMLSchema#string"} {
+				ent := append([]tok{{K: "int", I: 1}, {K: "parts", Parts: parts}}, val...)
+				ent = append(ent, tok{K: "str", S: dt})
+				cs = append(cs, gcase{op: "entry", why: "hostile-key", toks: ent})
+				cs = append(cs, gcase{op: "entrykv", why: "hostile-key", toks: ent})
+				mzs := []tok{{K: "int", I: 1}, {K: "bytes", J: "JObject"}, {K: "bytes", J: "JObject"}, {K: "big", Big: big.NewInt(0)}, {K: "int", I: 2},
+					{K: "str", S: "k0"}, {K: "entry", Inner: g.validEntry()}, {K: "str", S: ""}, {K: "entry", Inner: ent}, {K: "bool", B: true}}
+				cs = append(cs, gcase{op: "mzfrombytes", why: "hostile-key", toks: mzs})
+			}
+		}
+	}
 	for i := 0; i < nEntry; i++ {
+		if i%3 == 0 { // restore, then hash key and value
+			ts := g.validEntry()
+			why := "valid"
+			if i%2 == 0 {
+				ts, why = g.mutateToks(ts, true)
+			}
+			cs = append(cs, gcase{op: "entrykv", why: why, toks: ts})
+		}
 		ts := g.validEntry()
 		why := "valid"
 		if i%6 != 0 {
@@ -396,7 +419,7 @@ func (d *drv) gobStream() error {
 	}
 	for i, c := range cs {
 		o := res[i]
-		entry := map[string]string{"mzfrombytes": "MerklizerFromBytes", "entry": "RDFEntry.UnmarshalBinary"}[c.op]
+		entry := map[string]string{"mzfrombytes": "MerklizerFromBytes", "entry": "RDFEntry.UnmarshalBinary", "entrykv": "RDFEntry.UnmarshalBinary+KeyValueMtEntries"}[c.op]
 		input := map[string]any{"stream": "gob", "op": c.op, "tree": c.tree, "why": c.why, "data": jobs[i].Data}
 		d.rep.Evaluations++
 		d.rep.Count("gob:" + c.op + ":" + o.Class)
@@ -407,14 +430,14 @@ func (d *drv) gobStream() error {
 		} else if limit := uint64(64<<20) + 4096*uint64(len(jobs[i].Data)); o.Alloc > limit {
 			d.rep.Fail("c12-"+slug(entry)+"-memory", fmt.Sprintf("%s allocated %d bytes on a %d-byte input", entry, o.Alloc, len(jobs[i].Data)), input)
 		}
-		if c.raw != nil {
+		if c.raw != nil || longForModel(c.toks) {
 			continue
 		}
 		toks := c.toks
 		// primitives the skeleton may consult
 		_, _ = d.prims.Hash([]*big.Int{big.NewInt(0)})
 		_, _ = d.prims.Hash([]*big.Int{big.NewInt(1)})
-		if c.op == "entry" {
+		if c.op == "entry" || c.op == "entrykv" {
 			d.recordEntryPrims(toks)
 		} else {
 			for _, t := range toks {
@@ -430,6 +453,9 @@ func (d *drv) gobStream() error {
 			if op == "entry" {
 				return "IEntry " + toksCoq(f, toks)
 			}
+			if op == "entrykv" {
+				return "IEntryKV " + toksCoq(f, toks)
+			}
 			given := "None"
 			if tree == "empty" {
 				given = "(Some [])"
@@ -439,4 +465,19 @@ func (d *drv) gobStream() error {
 	}
 	_ = constants.Q
 	return nil
+}
+
+// longForModel: a string too long to be written into a Coq case file
+func longForModel(ts []tok) bool {
+	for _, t := range ts {
+		if len(t.S) > 300 || (t.K == "entry" && longForModel(t.Inner)) {
+			return true
+		}
+		for _, p := range t.Parts {
+			if s, ok := p.(string); ok && len(s) > 300 {
+				return true
+			}
+		}
+	}
+	return false
 }
